@@ -83,8 +83,29 @@ end CB.Encoding
 namespace CB
 open CB.Encoding CB.Encoding.D16
 
+/-- `c16.hook.*`: the crate-internal `decode_hex_byte([a, b])` reached through `crypto_bigint::verif_hooks`.
+    `decode_hex_byte a b` prints the pair `(byte, err)` exactly as the limb-level model computes it (L1 only: when the
+    pair is not two hex digits the property only demands `err ≠ 0`, not particular values);
+    `hex_pair a b` prints what the callers act on — the byte when `err = 0`, else `invalid` — as `L1 ;; L0` with
+    L0 from the positional specification (`hexVal?`): both characters hex digits ⇒ `16·hi + lo`, otherwise invalid. -/
+def hookC16 (op : String) (a b : Nat) : Option String :=
+  let r := decodeHexByte a b
+  match op with
+  | "c16.hook.decode_hex_byte" => some s!"{natToHex r.1} {natToHex r.2}"
+  | "c16.hook.hex_pair" =>
+    let l1 := if r.2 = 0 then natToHex r.1 else "invalid"
+    let l0 := match hexVal? a, hexVal? b with
+      | some h, some l => natToHex (16 * h + l)
+      | _, _ => "invalid"
+    both l1 l0
+  | _ => none
+
 def dispatchC16 : Dispatch := fun op args =>
   match op, args with
+  | "c16.hook.decode_hex_byte", [a, b] | "c16.hook.hex_pair", [a, b] =>
+    match hexToNat? a, hexToNat? b with
+    | some a, some b => if a < 256 ∧ b < 256 then hookC16 op a b else badArgs
+    | _, _ => badArgs
   -- ---------------------------------------------------------------- Limb
   | "c16.l.to_be_bytes", [w] =>
     match hexToNat? w with
